@@ -248,7 +248,8 @@ STANDARD = {
     "C07": [("MC_Alos2_sim_redeliver", ["refresh", "cached_opens"], None, ("P", "Q"), (400, 2000), (24, 240), 12),
             ("MC_Alos2_sim_cache", ["cached_rpcs", "cached_opens"], None, ("P",), (300, 2000), (16, 160), 12)],
     "C09": [("MC_Alos2_sim_cache", ["torn", "cachedir"], None, ("P",), (300, 2000), (24, 240), 12)],
-    "C10": [("MC_Alos2_sim_all", ["cached_opens", "cachedir", "torn", "two_locs"], ["cached_opens", "torn"], ("P", "Q"), (300, 3000), (32, 400), 14)],
+    "C10": [("MC_Alos2_sim_all", ["cached_opens", "torn", "two_locs"], ["cached_opens", "torn"], ("P", "Q"), (300, 3000), (24, 400), 14),
+            ("MC_Alos2_sim_cache", ["cachedir", "torn"], None, ("P",), (300, 2000), (16, 200), 12)],
     "C12": [("MC_Alos2_sim_cache", ["cached_opens"], None, ("P",), (300, 1500), (16, 160), 12)],
     "C13": [("MC_Alos2_sim_cache", ["cached_opens", "reopen_after_redeliver"], ["cached_opens"], ("P",), (300, 1500), (24, 160), 12)],
     "C14": [("MC_Alos2_sim_redeliver", ["reopen_after_redeliver"], None, ("P", "Q"), (300, 1500), (16, 160), 12)],
